@@ -32,6 +32,7 @@ func (c Config) parseTokens(tokens []Token) (ASTNode, Error) { //nolint: gocyclo
 		rawTag    *ASTRaw          // current raw tag
 		inComment = false
 		inRaw     = false
+		opaqueTok Token // the comment or raw tag that opened the current opaque body
 	)
 	for _, tok := range tokens {
 		switch {
@@ -64,8 +65,10 @@ func (c Config) parseTokens(tokens []Token) (ASTNode, Error) { //nolint: gocyclo
 				switch {
 				case tok.Name == "comment":
 					inComment = true
+					opaqueTok = tok
 				case tok.Name == "raw":
 					inRaw = true
+					opaqueTok = tok
 					rawTag = &ASTRaw{}
 					*ap = append(*ap, rawTag)
 				case cs.RequiresParent() && (sd == nil || !cs.CanHaveParent(sd)):
@@ -104,6 +107,9 @@ func (c Config) parseTokens(tokens []Token) (ASTNode, Error) { //nolint: gocyclo
 		case tok.Type == TrimRightTokenType:
 			*ap = append(*ap, &ASTTrim{TrimDirection: Right})
 		}
+	}
+	if inComment || inRaw {
+		return nil, Errorf(opaqueTok, "unterminated %q block", opaqueTok.Name)
 	}
 	if bn != nil {
 		return nil, Errorf(bn, "unterminated %q block", bn.Name)
